@@ -24,7 +24,7 @@ class Runtime(RuntimeCheck):
 class Check(MacroCheck):
     prop = 'C19'
     theorems = ['C19_call_rendering', 'C19_error_names_call', 'C19_error_names_path', 'C19_error_names_pattern', 'C19_pattern_rendering',
-                'diagPositions_mem', 'C19_diagnostics_positions', 'C19_debug_inputs_positions']
+                'diagPositions_mem', 'C19_diagnostics_positions', 'C19_debug_inputs_positions', 'C19_source_ncalls']
     case_prefixes = ('__none__',)
     facts_of_interest = r'(debug |path=)'
     runtime = Runtime()
@@ -41,6 +41,7 @@ class Check(MacroCheck):
 
     def run(self, tier, seed, replay=None):
         # parts (3) and (4) through the generic macro check, then (1) and (2) added to the same report
+        engine.run_translator('translate_counter')      # Display for NCalls, re-translated from src/counter.rs
         self._extra_done = False
         orig_finish = engine.Report.finish
         check = self
